@@ -53,6 +53,8 @@ CAUSE = {"critical": ["C05"], "timeout": ["C08"], "success": ["C09", "C02"],
          "cancelled": ["C11"], "not-main": ["C01"]}
 ATTR = [
     (r"^req-unfinished$", ["C01"]),
+    # a forever job releases the jobs that require it only by ending
+    (r"^req-unfinished-forever$", ["C01", "C09"]),
     (r"^parent-not-started$", ["C01", "C10"]),
     (r"^start-not-scheduled$", ["C01", "C12"]),
     (r"^second-start$", ["C02"]),
@@ -106,11 +108,14 @@ ATTR = [
     (r"^diagnosis", ["C04"]),
     (r"^run-end-early$", ["C02", "C04", "C09"]),
     (r"^run-(end|exc)-", ["C04", "C10"]),
-    (r"^cancelled-run-ends-early-parent-aborted-critical$", ["C11", "C05"]),
-    (r"^cancelled-run-ends-early-parent-aborted-timeout$", ["C11", "C08"]),
-    (r"^cancelled-run-ends-early-parent-aborted-success$", ["C11", "C09"]),
-    (r"^cancelled-run-ends-early", ["C11"]),
+    # (the nested scheduler is over for its parent before its own run is: C10)
+    (r"^cancelled-run-ends-early-parent-aborted-critical$", ["C11", "C10", "C05"]),
+    (r"^cancelled-run-ends-early-parent-aborted-timeout$", ["C11", "C10", "C08"]),
+    (r"^cancelled-run-ends-early-parent-aborted-success$", ["C11", "C10", "C09"]),
+    (r"^cancelled-run-ends-early", ["C11", "C10"]),
     (r"^predicates$", ["C14"]),
+    (r"^results-nested-scheduler-parent-aborted-(\w+)$", "cause+", ["C14", "C10"]),
+    (r"^results-job-parent-aborted-(\w+)$", "cause+", ["C14"]),
     (r"^results-nested-scheduler$", ["C14", "C10"]),
     (r"^results-exception$", ["C14", "C06"]),
     (r"^results-", ["C14"]),
@@ -134,10 +139,13 @@ def attribute(code):
         # the refused event belongs to a forever job, or to a job inside a forever nested scheduler
         code = code[:-len("-under-forever")]
         extra = ["C09"]
-    for rex, props in ATTR:
+    for entry in ATTR:
+        rex, props = entry[0], entry[1]
         m = re.match(rex, code)
         if not m:
             continue
+        if props == "cause+":
+            return entry[2] + CAUSE.get(m.group(1), ["C05", "C08", "C09"]) + extra
         if props == "cause":
             return CAUSE.get(m.group(1), ["C05", "C08", "C09"]) + extra
         if props == "cause2":
@@ -164,6 +172,7 @@ def record(scenarios, workdir, tag):
         sc["cfg"].setdefault("cwait", [0] * sc["cfg"]["n"])
         sc["cfg"].setdefault("preshut", False)
         sc["cfg"].setdefault("xshut", False)
+        sc["cfg"].setdefault("cout", ["cancelled"] * sc["cfg"]["n"])
         sc["cfg"].setdefault("scdur", [0] * sc["cfg"]["n"])
         sc["cfg"].setdefault("ucancel", -1)
     with open(scf, "w") as out:
@@ -432,6 +441,8 @@ def flatten(cfg):
             "req": [[]] + [sorted(newid[r] for r in flatreq(a)) for a in atoms],
             "horizon": cfg.get("horizon", 0), "ucancel": cfg.get("ucancel", -1),
             "cwait": [0] * m, "preshut": bool(cfg.get("preshut", False)), "xshut": bool(cfg.get("xshut", False))}
+    cout = cfg.get("cout", ["cancelled"] * n)
+    flat["cout"] = [cout[0]] + [cout[a - 1] for a in atoms]
     for key in ("crit", "forever", "win", "tmo", "stmo", "dur", "out", "sdur", "cdur", "scdur"):
         flat[key] = [cfg[key][0]] + [cfg[key][a - 1] for a in atoms]
     back = [1] + atoms
@@ -687,6 +698,8 @@ def summary_of_trace(trace):
             te[node], st[node], res[node] = e["t"], 2, (2, node)
         elif k == "cancel-done":
             te[node], st[node] = e["t"], 3
+        elif k == "cancel-raise":
+            te[node], st[node], res[node] = e["t"], 2, (2, node)
         elif k == "run-end":
             te[node], st[node], res[node] = e["t"], 1, ((3, 0) if e["v"] == "true" else (4, 0))
         elif k == "run-exc":
